@@ -23,6 +23,8 @@ EXPLANATION = (
     "can receive None (to_xml omits None, the re-parse would fail) - nullability comes from the definition classes' defaults, computed by "
     'abstract construction; the value= argument is a wire scalar, not a values.BLOB object. C07.SIBLING: the keyword sets of the three definition '
     'emitters and the two update emitters agree up to the parameters their message class lacks.'
+    ' C07.META evaluates every property under three histories (value set; set, rendered, then refreshed with reset_value; set, rendered, then set again): anything a renderer memoises must follow the current value.'
+    " C07.ADDRESS: for a constructed Driver and a constructed Proxy subclass (whose accepts() is a catch-all because it forwards), the router's test accepts(name) followed by the device's own message_from_client elicits definitions only for requests that name no device or this device (5 names each)."
 )
 NOT_DECIDED = "values in every reachable state (data); that is covered for numbers by C10 and for BLOBs by C08."
 ASSUMPTIONS = ["to_xml omits None attributes and writes str() of the others (decided by C03.WRITE)", "router addressing decides which devices see the request (C04)"]
@@ -93,6 +95,63 @@ def rule_branch(ctx):
                     if not (len(a) == 2 and a[0] is arg and a[1] is pa.interp.drv):
                         ok = False
         ctx.check(ok, "C07.BRANCH", f"{sm.short}[{'None' if expect_calls == 0 else 'message'}]", "None dropped / message routed with the driver as sender", "Driver.send_message does not drop None / route the message with itself as sender exactly once", fi=sm, text=f"send:{expect_calls}")
+
+
+_ADDR_SRC = '''
+from indi.device import Driver, properties
+from indi.device.proxy import Proxy
+
+
+class DevA(Driver):
+    grp = properties.Group("GRP", vectors=dict(v1=properties.TextVector("V1", elements=dict(a=properties.Text("A")))))
+
+
+class Rem(Proxy):
+    address = "remote.example"
+'''
+
+
+def rule_address(ctx):
+    """Who answers a getProperties is decided by the router's test (device.accepts(name)) followed by the device's own
+    handling: for every device class of the library - the plain Driver and the Proxy, whose accepts() is a catch-all
+    because it forwards everything - a definition is elicited only by a request that names no device or this device."""
+    p = ctx.p
+    from .driverworld import build_drivers
+    gp = p.cls("indi.message.get_properties.GetProperties")
+    bad = False
+    n = 0
+    for target, dname in (("DevA", "DEVA"), ("Rem", "REMOTE")):
+        for device in (None, "DEVA", "REMOTE", "NOPE", ""):
+            n += 1
+
+            def run(it: Interp):
+                drivers = build_drivers(it, p, names=(("DevA", "DEVA"), ("Rem", "REMOTE")), src=_ADDR_SRC, extra_classes=("indi.device.proxy.Proxy",))
+                d = drivers[dname]
+                msg = Obj(gp, {"device": Const(device), "name": Const(None), "version": Const("1.7"), "__closed__": Const(True)}, label="getProperties")
+                acc = it.run_function(Fn(d.cls.find_method("accepts"), d), [Const(device)], {})
+                t = it.truth_of(acc)
+                if t is None:
+                    raise Undecided(f"{d.cls.name}.accepts({device!r}) not decided")
+                del it.events[:]
+                if t:
+                    it.run_function(Fn(d.cls.find_method("message_from_client"), d), [msg], {})
+                return Const(None)
+
+            paths = explore(p, run, {"inline": lambda fi, node: (fi.name in ("accepts", "message_from_client") or fi.kind == "getter") and fi.module.name.startswith("indi.device")})
+            ctx.paths_enumerated += len(paths)
+            f = p.cls("indi.device.proxy.Proxy" if target == "Rem" else "indi.device.driver.Driver").find_method("message_from_client")
+            if len(paths) != 1 or paths[0].outcome != "return":
+                ctx.undecided("C07.ADDRESS", f.short, f"getProperties(device={device!r}) to {dname} not decided by constant evaluation ({len(paths)} paths)", fi=f)
+                bad = True
+                continue
+            defs = [e for e in paths[0].calls(method="send_message") if e.data["args"] and is_call(e.data["args"][0], method="to_def_message")]
+            want = device is None or device == dname
+            if bool(defs) != want:
+                what = f"answers with {len(defs)} definition(s)" if defs else "stays silent"
+                ctx.violated("C07.ADDRESS", f.short, f"a getProperties naming device {device!r} reaches {dname} ({'a Proxy' if target == 'Rem' else 'a Driver'}) and it {what}; a definition is due " + ("exactly" if want else "only") + " when the request names no device or this device", fi=f, text=f"address:{target}:{device}", witness=f"<getProperties device={device!r}> with devices DEVA (Driver) and REMOTE (Proxy)")
+                bad = True
+    if not bad:
+        ctx.holds("C07.ADDRESS", "Driver / Proxy", f"{n} (device class x addressed name) cases: definitions only from the device that is addressed (or from all when no device is named)")
 
 
 def _inline_getters(p):
@@ -408,8 +467,9 @@ _META_VEC = {
 
 _META_CUR_STATE = {"V1": "Ok", "V2": "Idle"}
 _META_CUR = {
-    "Number": [(("V1", "A"), 4.25), (("V1", "B"), -1.5), (("V2", "A"), 12.5)],
-    "Text": [(("V1", "A"), "curA"), (("V1", "B"), "curB"), (("V2", "A"), "curA2")],
+    # V2.A moves to a falsy value (0 / the empty text) while its declared default is not: '<value> or <default>' shows
+    "Number": [(("V1", "A"), 4.25), (("V1", "B"), -1.5), (("V2", "A"), 0.0)],
+    "Text": [(("V1", "A"), "curA"), (("V1", "B"), "curB"), (("V2", "A"), "")],
     "Switch": [(("V1", "B"), "On"), (("V2", "A"), "Off")],  # AtMostOne: B on clears A
     "Light": [(("V1", "A"), "Ok"), (("V1", "B"), "Idle"), (("V2", "A"), "Alert")],
     "BLOB": [],
@@ -419,8 +479,8 @@ _META_EARLIER = {
 }
 _HIST_NOTE = {"set": "", "render-then-reset": " (an earlier value was rendered before, then the value was refreshed with reset_value)", "render-then-set": " (an earlier value was rendered before, then the value was set again)"}
 _META_NOW = {
-    "Number": {("V1", "A"): 4.25, ("V1", "B"): -1.5, ("V2", "A"): 12.5},
-    "Text": {("V1", "A"): "curA", ("V1", "B"): "curB", ("V2", "A"): "curA2"},
+    "Number": {("V1", "A"): 4.25, ("V1", "B"): -1.5, ("V2", "A"): 0.0},
+    "Text": {("V1", "A"): "curA", ("V1", "B"): "curB", ("V2", "A"): ""},
     "Switch": {("V1", "A"): "Off", ("V1", "B"): "On", ("V2", "A"): "Off"},
     "Light": {("V1", "A"): "Ok", ("V1", "B"): "Idle", ("V2", "A"): "Alert"},
 }
@@ -545,6 +605,7 @@ def rule_meta(ctx):
 
 RULES = [
     ("C07.META", rule_meta, "every emitted field comes from the right source (own definition/state/group/device; element format)"),
+    ("C07.ADDRESS", rule_address, "Driver and Proxy: accepts() + message_from_client answer only requests that name no device or this device"),
     ("C07.BRANCH", rule_branch, "getProperties answered with exactly the requested definitions; send_message drops None"),
     ("C07.DISABLED", rule_disabled, "disabled property -> delProperty / no update; enabled -> exactly its enabled elements"),
     ("C07.EMIT", rule_emit, "emit sites agree with constructor signatures; no required attribute can be None; scalar value"),
